@@ -86,6 +86,15 @@ def ref_form(a, b, mode):
     calls = [c.fn for c in a.calls if c.fn not in PLUMBING and not c.fn.startswith("core::panicking::") and not a.is_pure(c) and not getattr(c, "no_effects", False)]
     if calls:
         return REFUTED, "calls in a pure reference reinterpretation: %s" % sorted(set(calls))
+    # a reference reinterpretation returns its view for EVERY shape on which it type-checks (zero-length rows included): no compiler-inserted
+    # check (division by zero, bounds, overflow) may be able to fail, and no explicit panic may be reachable
+    from ..poly import prove as _prove, Poly as _Pl
+    live = [x["msg"] for x in getattr(a, "asserts", []) if not x["cleanup"] and not _prove((">=", _Pl.const(-1)), a.poly_facts(x["fail_facts"]))]
+    if live:
+        return REFUTED, "a compiler-inserted check can fail in a pure reference reinterpretation (it would panic instead of returning the view): %s" % sorted(set(live))
+    pan = [c.fn for c in a.calls if c.fn.startswith("core::panicking::") and not a.blocks[c.bb]["cleanup"] and not _prove((">=", _Pl.const(-1)), a.poly_facts(c.facts))]
+    if pan:
+        return REFUTED, "a panic is reachable in a pure reference reinterpretation: %s" % sorted(set(pan))
     tin, tout = a.local_ty(1), a.local_ty(0)
     if tin.get("k") != "ref" or tout.get("k") != "ref":
         return UNKNOWN, "receiver or result is not a reference"
